@@ -29,7 +29,7 @@ def main():
         env = dict(os.environ, PYTHONPATH=wt, PYTHONDONTWRITEBYTECODE="1")
         if demo:
             shutil.copy(demo, os.path.join(wt, "_seed", os.path.basename(demo)))
-            rc, o = sh([PY, os.path.join("_seed", os.path.basename(demo))], cwd=wt, env=env, timeout=600)
+            rc, o = sh([PY, os.path.join("_seed", os.path.basename(demo)), wt], cwd=wt, env=env, timeout=600)
             out["demo_passes_without_change"] = rc == 0
         rc, o = sh(["git", "apply", "--whitespace=nowarn", patch], cwd=wt)
         out["applies"] = rc == 0
@@ -40,7 +40,7 @@ def main():
         out["tests_pass_with_change"] = rc == 0
         out["tests_tail"] = o.strip().splitlines()[-1] if o.strip() else ""
         if demo:
-            rc, o = sh([PY, os.path.join("_seed", os.path.basename(demo))], cwd=wt, env=env, timeout=600)
+            rc, o = sh([PY, os.path.join("_seed", os.path.basename(demo)), wt], cwd=wt, env=env, timeout=600)
             out["demo_fails_with_change"] = rc != 0
             out["demo_tail"] = o.strip()[-300:]
         for pid in pids:
